@@ -70,8 +70,8 @@ func (ex *Exec) assumeAxiom(t *Term) {
 
 type bytesKey struct {
 	arr, off, n int
-	logLen     int
-	cur        int
+	logLen      int
+	cur         int
 }
 
 // bytesOf: the value held by slice s now.
@@ -183,8 +183,8 @@ func (ex *Exec) extCandidate(class string, v *Term) {
 	ex.extOrigin[v.id] = inCode
 	type pair struct {
 		p, clause, eq *Term
-		q         string
-		ok        bool
+		q             string
+		ok            bool
 	}
 	var ps []*pair
 	for _, p := range ex.extList[class] {
